@@ -10,11 +10,13 @@ import (
 	"os/exec"
 	"runtime/debug"
 	"sync"
+	"time"
 
 	"github.com/github/git-sizer/git"
 	"github.com/github/git-sizer/meter"
 	"github.com/github/git-sizer/sizes"
 	"github.com/github/go-pipe/pipe"
+	"verifsched"
 
 	"verif/modelgit"
 	"verif/mrepo"
@@ -99,6 +101,8 @@ type Result struct {
 	RefRoots []sizes.RefRoot
 	Walked   []mrepo.ID
 	Log      []modelgit.Invocation
+	// Hang: the scan did not return within ScanHorizon
+	Hang bool
 }
 
 // Unmodelled returns the first git command of the run that the model git does
@@ -116,6 +120,29 @@ func (r *Result) Unmodelled() string {
 // Scan runs CollectReferences + ScanRepositoryUsingGraph on the model.
 // explicit are ROOT arguments (name, id) appended after the references.
 func Scan(env *modelgit.Env, rg sizes.RefGrouper, explicit [][2]string, style sizes.NameStyle, progress meter.Progress) (res Result) {
+	if verifsched.S != nil {
+		// under the cooperative scheduler a hang is a deadlock the scheduler reports
+		return scan(env, rg, explicit, style, progress)
+	}
+	// free-running: a scan takes milliseconds; one that has not returned after
+	// ScanHorizon hangs (its goroutines are abandoned, the worker goes on)
+	done := make(chan Result, 1)
+	go func() { done <- scan(env, rg, explicit, style, progress) }()
+	select {
+	case r := <-done:
+		return r
+	case <-time.After(ScanHorizon):
+		mu.Lock()
+		log := append([]modelgit.Invocation(nil), Log...)
+		mu.Unlock()
+		return Result{Hang: true, Err: fmt.Errorf("the scan did not return within %v (hang)", ScanHorizon), Log: log}
+	}
+}
+
+// ScanHorizon is the wall-clock limit of one free-running in-process scan.
+var ScanHorizon = 60 * time.Second
+
+func scan(env *modelgit.Env, rg sizes.RefGrouper, explicit [][2]string, style sizes.NameStyle, progress meter.Progress) (res Result) {
 	mu.Lock()
 	cur = env
 	Log = Log[:0]
